@@ -1242,7 +1242,7 @@ func (t *ftr) stmt1(s ast.Stmt) string {
 						structDest = true
 					}
 				}
-				if len(x.Lhs) > 1 || okO || (okM && structDest) || structDest {
+				if len(x.Lhs) > 1 || okO || okM || structDest {
 					if name, args, dests, ok := t.callParts(c); ok {
 						good := true
 						for _, l := range x.Lhs {
